@@ -333,7 +333,7 @@ func c07R3(r *Report) {
 		}
 		return (bo.Op == token.NEQ && !pol) || (bo.Op == token.EQL && pol)
 	}
-	missing, reached := pathsMissingX(cc, -1, isReply, nil, []edgeReq{{"skey.Equal(info-hash)", eqCond, true}}, skeyNil)
+	missing, reached := pathsMissingX(cc, -1, isReply, nil, []edgeReq{{Name: "skey.Equal(info-hash)", Cond: eqCond, Pol: true}}, skeyNil)
 	// premise: crypto.ServerHandshake never succeeds with a nil skey
 	{
 		r.Fn(csh)
